@@ -92,6 +92,17 @@ theorem C16_receive {s s' : State} {n : Nat} {r : Res} (h : receive s n = (r, s'
       · simp [h2] at hc
       · exact absurd hc h3
 
+/-- The hypothesis of `C16_receive` ("the wrapped stream never delivers an empty chunk") holds
+throughout every call sequence if it holds for the initial chunking - also for a byte stream
+that returns only part of a chunk. -/
+theorem C16_nonempty_chunks_invariant (s : State) (cs : List Call) (h : NonemptyChunks s) :
+    NonemptyChunks (run s cs).2 := by
+  induction cs generalizing s with
+  | nil => exact h
+  | cons c cs ih =>
+    exact ih (call s c).2
+      (call_nonempty (show call s c = ((call s c).1, (call s c).2) from rfl) h)
+
 /-- `receive_exactly(n)`: exactly the first `n` pending bytes; otherwise `IncompleteRead`,
 only when the wrapped stream is at its end with fewer than `n` bytes in all (or
 `ClosedResourceError` on a closed stream), and then nothing is handed out or lost (what was
